@@ -308,7 +308,8 @@ class C30(Check):
                  "array-section contents (via .symtab) of the wild-linked program must equal the GNU-ld-linked one")
     rule = ("Hypothesis-generated sets of 2-7 TUs (gcc/clang/clang -fno-use-init-array/asm; object, archive member, shared "
             "library member) with 0-5 prioritised entries each; non-trivial = >=2 loaded TUs contribute to the same array "
-            "family with >=2 distinct priorities, or .ctors/.dtors and .init_array/.fini_array are mixed in one link; "
+            "family with >=2 distinct priorities, or .ctors/.dtors and .init_array/.fini_array are mixed in one link, or a "
+            ".ctors/.dtors input section holds several entries; "
             "distinct by the per-TU (kind, placement, [(array, priority)]) structure")
     assumptions = ["GNU ld 2.40 is the reference for the order", "glibc's startup code runs the arrays in the ABI order"]
     quick_cases = 320
